@@ -1,15 +1,26 @@
 """C13 - LDM queries return exactly the matching objects, identically on both back-ends.
 
-Decides: agreement of the operator vocabulary between its three holders (enum __str__ tables, OPERATOR_MAPPING, the
-literals the back-ends test); that each operator entry implements its own symbol and is applied as
-(attribute value, reference value) with the operator / attribute / reference of ONE filter statement; that both
-back-ends resolve a dotted attribute path from the same root; that a missing attribute makes the object a non-match
-(per object); that type selection applies on every query path and keeps exactly the requested types; that ordering
-uses every requested attribute and the requested direction.
-Does not decide equivalence with a predicate evaluator over generated stores, nor TinyDB's own semantics.
+Decides (ops): agreement of the operator vocabulary between its three holders (enum __str__ tables covering every
+member with distinct strings and the prescribed symbols, OPERATOR_MAPPING keys, the and / or literals both back-ends
+compare str(logical_operator) with); that each OPERATOR_MAPPING entry implements its own symbol (a reflected spelling
+`b > a` of `a < b` counts as the same comparison) and like / notlike are the containment helper on (value, reference)
+with the negation INSIDE the per-value predicate - contains XOR negate on all four valuations, both the query and the
+raw-value path returning that verdict, the helper being a membership test or False; that the function looked up by
+str(operator) is applied as (attribute value, reference value) with attribute path, operator and reference of ONE
+filter statement and its truth value is the verdict; that 'and' combines with and / &, 'or' with or / |, on the
+verdicts of statement 1 and statement 2 of the same object, exactly when a second statement is present, an object
+kept exactly when its verdict holds, and that both back-ends use the same default operator for two statements
+without one; (path-root) that both back-ends resolve a dotted attribute path from the same root; (missing-attr) that
+a missing attribute is caught per object and counts as a non-match, and no `~` inverts a TinyDB query (which would
+match documents lacking the attribute); (types-always) that type selection applies on every return of the search and
+query paths, the helper keeping in order exactly the requested types and the filter returning a sub-sequence of its
+candidates; (order) that the sort key is every requested attribute in request order and the direction the requested
+one.
+Does not decide equivalence with a predicate evaluator over generated stores, TinyDB's own semantics, comparisons of
+values of different types, nor the bodies of Utils.get_nested / find_attribute (resolved as callees).
 
-All decisions are taken on the AST / the flow facts (canonical atoms of sem.py, locals resolved through the flow,
-arguments bound to parameter names, callees resolved by the program model) - never on source text.
+All decisions are taken on the AST / the flow facts (canonical atoms, locals resolved through the flow, arguments bound
+to parameter names, callees resolved by the program model) - never on source text.
 """
 from __future__ import annotations
 
